@@ -253,10 +253,37 @@ reg("C07", ["c07_regp_corrupt.c"], level="fault_enumeration",
                  "implausible size; read requests and meta messages carry no payload, all other types carry block size "
                  "x word size octets"])
 
+reg("C09", ["c09_regp_safety.c"], level="fault_enumeration",
+    rule="'lengths': both transports x allocator block sizes {65,66,70,75..82,96,128,200} (capacity = block - "
+         "sizeof(RPFrame)) x every frame length 0..capacity+40 (8-bit write request, cut short or padded where no "
+         "complete frame has that length); 'reads': both transports x 8/16-bit memory x block sizes "
+         "{81,96,100,101,128,129,257} x every read block size from 20 below to 24 above the transmit limit; "
+         "'allocfail': sessions of 6 frames with the k-th allocation failing, k = 0..5; 'chanerr': a source error at "
+         "every octet position of the wire image of generated requests (followed by an intact frame), invalid SLIP "
+         "escapes, TCP length prefixes that promise more than the source holds; 'stream': streams of up to 8 random / "
+         "valid / mutated frames on block sizes sizeof(RPFrame)+1..+300 with optional allocation failure and channel "
+         "error, drained by the documented recv/process/free loop. After every round: allocator ledger (live set "
+         "empty, no double or foreign free), room behind every pointer handed to the backend, replies decoded by the "
+         "reference decoder. A signature is a unit; evaluations counts recv/process/free rounds.",
+    assumptions=["early replies are judged leniently where the statement is silent: a receive-overflow or busy response "
+                 "must have the right type, code, sequence number and address when the stored octets hold a complete "
+                 "header, otherwise a meta message is accepted; the size payload of a receive-overflow response is "
+                 "optional; in the zone where 'fits' depends on whether the request or a full response header is "
+                 "counted, ACK and ETXOVERFLOW are both accepted",
+                 "libFuzzer and MemorySanitizer targets are not part of the registered commands"])
+
 SAN_NOTE = ("Trusted: gcc 12 ASan/UBSan runtime, the harness' reference model, the fork-per-unit runner. "
             "Assumes little-endian x86-64; decides only the executions listed in the evidence file.")
 
 MANIFEST_TEXT = {
+    "C09": dict(
+        technique="runtime monitoring + fault enumeration: boundary-length frames, boundary-size reads, allocation failure at every index, channel error at every octet, random/mutated streams; ledger allocator on exact-size poisoned blocks (freed blocks re-poisoned), backend room monitor, reference decoder on the replies; ASan/UBSan",
+        text="The frame block is an exact-size poisoned-arena object, so any access beyond it - by the receiver, by "
+             "the checksum code or by the backend through a too-generous limit - is an ASan report or a room-monitor "
+             "failure; every block must be released exactly once at each quiescent point, also when the receiver "
+             "returns a channel error. The prescribed answers (receive overflow, transmit overflow with the buffer "
+             "size, busy, bad header encoding for short and empty frames) are checked at every boundary length.",
+        note=SAN_NOTE),
     "C07": dict(
         technique="runtime monitoring + fault enumeration: exhaustive bit-level mutation of reference-encoded frames fed through the real receiver; backend call log and reply stream observed; receiver verdict compared with an independent decoder written from the protocol document; ASan/UBSan",
         text="Every listed corruption of every corpus frame is actually received and processed by the real code; the "
